@@ -19,6 +19,7 @@
    APIs turn the files of a version into the same rows (filters, projection, batching) is C12 / C13; that the
    rows returned by each real API under real schedules are those of one pointer version is the harness oracle. *)
 From Coq Require Import String ZArith List Bool Arith.
+Require DS.Model.Meta DS.Gen.GenFileOps DS.Proofs.TxQueueProofs.
 Require Import DS.Model.Commit DS.Model.Fault DS.Model.Reader DS.Proofs.CommitProofs DS.Proofs.FaultProofs DS.Proofs.ReaderProofs
                DS.Gen.GenReadRes DS.Proofs.ReadResProofs.
 Import ListNotations.
@@ -125,3 +126,26 @@ Example C02_two_resolutions_mix :
   r_end (r_readers z 0%nat) = Some 1%nat /\ r_got (r_readers z 0%nat) = [0; 0; 1]%nat
   /\ refs (rx z) 0%nat = [0]%nat /\ refs (rx z) 1%nat = [0; 1]%nat.
 Proof. vm_compute. repeat split. Qed.
+
+(* A transaction that loses a race is retried by the library: EVERY attempt hands the commit protocol the WHOLE queue --
+   each appended file, each path to delete, the largest expiry cutoff, nothing else -- so the version a retried
+   transaction finally publishes shows all of its operations or (while it keeps losing) none.  gen_partition is
+   REGENERATED from Transaction.commit; that each attempt of the retry loop rebuilds it from the untouched queue and that
+   nothing (commit, _commit_file_ops) edits the accumulators afterwards are counted on the source
+   (gen_partition_per_attempt, gen_partition_args_kept); with either fact missing a retried attempt may see what an
+   earlier attempt left (second conjunct: witness). *)
+Theorem C02_retry_whole_queue :
+  (forall scribble ops k,
+     TxQueueProofs.attempt_input GenFileOps.gen_partition_per_attempt GenFileOps.gen_partition_args_kept scribble ops k
+       = GenFileOps.gen_partition ops
+     /\ let '(a, d, e) := GenFileOps.gen_partition ops in
+        (forall f, In f a <-> exists fs, In (Meta.TAppend fs) ops /\ In f fs)
+        /\ (forall p, In p d <-> exists ps, In (Meta.TDelete ps) ops /\ In p ps)
+        /\ (forall c, In (Meta.TExpire c) ops -> exists e', e = Some e' /\ (c <= e')%Z)
+        /\ ((forall c, ~ In (Meta.TExpire c) ops) -> e = None))
+  /\ (exists scribble ops k, TxQueueProofs.attempt_input false true scribble ops k <> GenFileOps.gen_partition ops).
+Proof.
+  exact (conj (fun scribble ops k => conj (TxQueueProofs.every_attempt_whole_queue scribble ops k) (TxQueueProofs.partition_whole_queue ops))
+              TxQueueProofs.retried_attempt_needs_facts).
+Qed.
+Print Assumptions C02_retry_whole_queue.
